@@ -12,7 +12,7 @@ RULE = ('one run = one seeded scenario (CONNECT tunnel carrying byte strings bot
         'one proxy send() was short or hit EAGAIN and at least one payload byte was relayed; distinct '
         '= distinct event-log digests among non-trivial runs')
 STATE_MEASURE = 'not measured for this property'
-PROBES = ['bulk', 'tunnel', 'http', 'threaded', 'tunnel_class', 'partial_flush_tail', 'both_directions_inflight']
+PROBES = ['request_connection_close', 'bulk', 'tunnel', 'http', 'threaded', 'tunnel_class', 'partial_flush_tail', 'both_directions_inflight']
 COMPONENTS = {
     'real': ['proxy/core/work/threadless.py', 'proxy/core/work/fd/*.py', 'proxy/core/work/threaded.py',
              'proxy/http/handler.py', 'proxy/http/proxy/server.py', 'proxy/core/base/tcp_server.py',
@@ -95,6 +95,7 @@ def run_one(tape: Any, cfg: Dict[str, Any], forbid: FrozenSet[str] = frozenset()
         if bulk:
             maxchunk = 1 << 16      # peers move whole buffers; the interesting part is what the proxy's sends return
         faults = scen.setup_faults(w, tape, {'send': ['short', 'eagain']}, budget=400)
+        interim_gap = mode == 'http' and tape.coin(0.5, 'interim-gap')
         # ---- system under test ------------------------------------------
         if mode == 'tunnel_class':
             from ..tunnelclass import tunnel_flags
@@ -119,6 +120,13 @@ def run_one(tape: Any, cfg: Dict[str, Any], forbid: FrozenSet[str] = frozenset()
                     if i >= len(resps):
                         return []
                     ops: List[Any] = [('send', resps[i], 'dribble', maxchunk)]
+                    if interim_gap and metas[i].get('interim'):
+                        # the interim responses go out first, the final one a moment later (its own read at the proxy)
+                        pos = 0
+                        for _ in range(metas[i]['interim']):
+                            pos = resps[i].index(b'\r\n\r\n', pos) + 4
+                        ops = [('send', resps[i][:pos], 'dribble', maxchunk), ('sleep', 0.05),
+                               ('send', resps[i][pos:], 'dribble', maxchunk)]
                     if metas[i]['framing'] == 'close':
                         ops.append(('close',))
                     return ops
@@ -176,7 +184,13 @@ def run_one(tape: Any, cfg: Dict[str, Any], forbid: FrozenSet[str] = frozenset()
         if mode == 'http':
             done = 0
             for i in range(nresp):
-                req = (b'GET http://up.example/r%d HTTP/1.1\r\nHost: up.example\r\n\r\n' % i)
+                # what the request says about the connection must not change what is relayed: the last one may ask for
+                # the connection to be closed afterwards (the origin honours that or not), any may carry keep-alive / Expect
+                extra = [b'', b'', b'Connection: keep-alive\r\n', b'Expect: 100-continue\r\n'][tape.draw(4, 'reqhdr')]
+                if i == nresp - 1 and tape.coin(0.3, 'req-close'):
+                    extra = b'Connection: close\r\n'
+                    w.probe('request_connection_close')
+                req = (b'GET http://up.example/r%d HTTP/1.1\r\nHost: up.example\r\n' % i) + extra + b'\r\n'
                 script.append(('send', req, 'burst'))
                 done += len(resps[i])
                 script.append(('wait_rx', (lambda n: (lambda p: len(p.rx) >= n))(done)))
